@@ -514,7 +514,6 @@ func rflSourceFacts(repo string, b *strings.Builder) error {
 		if err != nil {
 			return err
 		}
-		_ = fsx
 		n := 0
 		ast.Inspect(fx, func(x ast.Node) bool {
 			if ce, ok := x.(*ast.CallExpr); ok {
@@ -525,6 +524,41 @@ func rflSourceFacts(repo string, b *strings.Builder) error {
 			return true
 		})
 		fmt.Fprintf(b, "/-- %s/sinfo.go: how many builders wrap the index access of a flattened embedded pointer in skipNilEmbedded (272431d: all three) -/\ndef %sSkipNilEmbeddedCalls : Nat := %d\n\n", pkg, pkg, n)
+		// C15-self-embedding (1c47510): a builder returns at once for a type it is already inside of,
+		// notes the type, and hands the list on in both recursive calls
+		guarded := 0
+		for _, bn := range []string{"buildTagFields", "buildExactFields", "buildLowFields"} {
+			fd := rflFuncDecl(fx, "", bn)
+			if fd == nil || fd.Body == nil || len(fd.Body.List) < 2 {
+				continue
+			}
+			first, isIf := fd.Body.List[0].(*ast.IfStmt)
+			if !isIf || rflExprText(fsx, first.Cond) != "embeddedIn(rt, outer)" || len(first.Body.List) != 1 {
+				continue
+			}
+			if _, isRet := first.Body.List[0].(*ast.ReturnStmt); !isRet {
+				continue
+			}
+			if rflExprText(fsx, fd.Body.List[1]) != "outer = append(outer, rt)" {
+				continue
+			}
+			rec, handed := 0, 0
+			ast.Inspect(fd.Body, func(x ast.Node) bool {
+				if ce, ok := x.(*ast.CallExpr); ok {
+					if id, ok := ce.Fun.(*ast.Ident); ok && id.Name == bn {
+						rec++
+						if n := len(ce.Args); n > 0 && ce.Ellipsis.IsValid() && rflExprText(fsx, ce.Args[n-1]) == "outer" {
+							handed++
+						}
+					}
+				}
+				return true
+			})
+			if rec == 2 && handed == 2 {
+				guarded++
+			}
+		}
+		fmt.Fprintf(b, "/-- %s/sinfo.go: how many of buildTagFields / buildExactFields / buildLowFields do not enter a type they are already inside of (1c47510: all three) -/\ndef %sBuildersGuardCycles : Nat := %d\n\n", pkg, pkg, guarded)
 	}
 	// C06rec: the entry points recover; indexType and self-embedding types; the any-composer registration
 	recovers := func(fd *ast.FuncDecl) bool {
